@@ -307,6 +307,14 @@ class DirScenario(Scenario):
         info = dict(log=[(e[0], e[3]) for e in self.log if e[0] in ("glob", "in", "create")])
         if len(set(got)) != len(got):
             return Violation("duplicate", "filenames", "", info)
+        opened = 0
+        for e in self.log:
+            if e[0] == "in":
+                opened += 1
+                if opened > 1:
+                    return Violation("took-next-before-downstream", "filenames", "", info)
+            elif e[0] == "out":
+                opened -= 1
         # reference: at each glob answer, new = answer - seen, emitted sorted
         seen = set()
         want = []
@@ -459,6 +467,8 @@ def plan(ctx):
                 for chunks in compositions(txt):
                     if 2 <= len(chunks) <= 3:
                         jobs.append((("text", delim, chunks, False, "", False, min(len(chunks), 2)), 0))
+    # a slow consumer: paths are handed on one at a time
+    jobs.append((("dir", ("/fake/c.csv",), ("/fake/a.csv", "/fake/b.csv"), (0, 1), "future"), 1))
     # a directory path instead of a pattern; a pattern spanning two directories (same file name in both);
     # stop() / start() between polls (what has been emitted stays emitted)
     for create in itertools.permutations(names[:2]):
